@@ -25,7 +25,7 @@ func c15NumCases(env *core.Env) int {
 	if env.Thorough() {
 		return 12000
 	}
-	return 500
+	return 3000
 }
 
 func c15Run(env *core.Env, idx int) core.CaseResult {
